@@ -33,12 +33,12 @@ def gen(rng, n):
             mx = max([o[1] for o in ops if o[0] == 1] + [1])
             cands = [(n2, t2) for n2 in NS for t2 in TS if mx // t2 <= max(2000, 200000 // n2)]
             if cands:
-                yield join(list(rng.choice(cands)), ops); k += 1
+                yield join(list(rng.choice(cands)) + [hdr[2]], ops); k += 1
 
 
 def nontrivial(script, out):
     hdr, ops = split(script)
-    ref = Ref(); tie = False
+    ref = Ref(hdr[2]); tie = False
     for o in ops:
         if o[0] == 1: ref.add(o[1], o[2])
         elif o[0] == 2: ref.cancel(o[1])
@@ -56,7 +56,7 @@ def monitor(script, out):
         recs = walk(script, out)
     except ValueError as e:
         return "malformed output: %s" % e
-    ref = Ref()
+    ref = Ref(script[2])
     for o, r in recs:
         if o[0] == 1:
             ok = ref.add(o[1], o[2])
@@ -69,7 +69,7 @@ def monitor(script, out):
             if e is None:
                 if r != [9, 2]:
                     return "fetch on empty queue returned %s" % r
-            elif r != [2, e[2], e[0]]:
+            elif r != [2, e[2], e[0]]:  # noqa
                 return ("fetch returned %s but the scheduling rule dispatches (pay=%d,time=%d) next "
                         "(current-instant events first in scheduling order, then equal timestamps in scheduling order)" % (r, e[2], e[0]))
     return None
